@@ -1216,6 +1216,13 @@ def channel_pairing(ctx, rule="R10.4"):
     if len(m) != 1:
         ctx.violation(rule, "floor:send-match", "PrioritySender::send no longer matches on the priority", s.loc(s.line))
     else:
+        # two spellings: every arm sends (`P => self.q.send(message)`), or the match selects the queue and one send follows (`let q = match .. { P => &self.q }; q.send(message)`)
+        root_ = thir.root(s)
+        inside = {id(n) for n in thir.walk(m[0])}
+        bound = [st["p"].get("n") for st in thir.walk(root_) if isinstance(st, dict) and st.get("k") == "let" and isinstance(st.get("i"), dict) and thir.peel(st["i"]) is m[0]
+                 and st["p"].get("k") == "bind"]
+        outer = [[pathx.desc(a).lstrip("&^") for a in nd["a"]] for c, nd in thir.calls_in(root_) if id(nd) not in inside and strip_generics(c).endswith("UnboundedSender::send")]
+        selected = len(bound) == 1 and outer == [[bound[0], "message"]]
         for pv in ("Normal", "High", "Urgent"):
             i = thir.first_arm(m[0], ("v", SUP + "::job::priority::Priority", pv, {}))
             ok = False
@@ -1224,7 +1231,10 @@ def channel_pairing(ctx, rule="R10.4"):
                 body = thir.peel(m[0]["arms"][i]["b"])
                 if body.get("k") == "call":
                     got = pathx.desc(body["a"][0])
-                    ok = got == "self." + pv.lower() and pathx.desc(body["a"][1]) == "message"
+                    ok = got == "self." + pv.lower() and pathx.desc(body["a"][1]) == "message" and not outer
+                else:
+                    got = pathx.desc(body).lstrip("&^")
+                    ok = selected and got == "self." + pv.lower()
             ctx.require(ok, rule, "send-maps:" + pv, "Priority::%s is sent on the %s queue" % (pv, pv.lower()), s.loc(s.line),
                         fail="Priority::%s controls are sent on %s instead of the %s queue" % (pv, got, pv.lower()))
 
